@@ -82,12 +82,37 @@ PROPS = {
         ],
         "assumptions": [],
     },
+    "C05": {
+        "required_theorems": ["c05_result", "c05_exit_reasons", "c05_thread_terminates", "c05_add_order_irrelevant",
+                              "c05_exit_lossless_wait", "c05_block_invariant"],
+        "runs": [
+            {"sub": "sched", "quick": ["--seed", "{seed}", "--what", "mt", "--mt-cases", 400],
+             "thorough": ["--seed", "{seed}", "--what", "mt", "--mt-cases", 40000], "timeout": 20000},
+            {"sub": "graphs", "quick": ["--seed", "{seed}", "--runner", "mt", "--cases", 50, "--configs", 3],
+             "thorough": ["--seed", "{seed}", "--runner", "mt", "--cases", 3000, "--configs", 6], "timeout": 40000},
+        ],
+        "rule": "generated graphs over the block library (1-2 vector sources of u8/u32/f32/complex, lengths 0..3 capacities, "
+                "repeat 1-2; up to 6 stages from 30 block kinds incl. rate changers, filters, tee/merge diamonds, packet "
+                "stages HdlcDeframer/VecToStream) run on the real MTGraph with stream sizes {1,2,4 pages, 4 MB} and add order "
+                "{creation, reversed, random}; every sink must equal a sequential reference execution of the same blocks (one "
+                "block at a time in creation order, large streams); a run that does not return in 30 s is a hang. Plus scripted "
+                "blocks: per-thread call counts and results vs the Lean thread-loop model. distinct = distinct request.",
+        "trusted_base": GLOBAL_TB + [
+            "the reference execution uses the real blocks (sequentially, one at a time): a defect common to all schedules of a "
+            "block is C08/C10's job, not visible here",
+            "PARTIAL: OS scheduling fairness; bounded-buffer deadlock of reconvergent paths whose skew exceeds the stream capacity "
+            "is excluded by the generator (diamond branches are rate-1 with skew <= 20 samples)",
+        ],
+        "assumptions": ["blocks are deterministic; sources are finite"],
+    },
     "C06": {
         "required_theorems": ["c06_exit_quiescent", "c06_quiet_pass_calls", "c06_progress_continues",
                               "c06_quiescent_is_fixpoint"],
         "runs": [
             {"sub": "sched", "quick": ["--seed", "{seed}", "--what", "st", "--cases", 4000],
              "thorough": ["--seed", "{seed}", "--what", "st", "--cases", 400000]},
+            {"sub": "graphs", "quick": ["--seed", "{seed}", "--runner", "st", "--cases", 60, "--configs", 3],
+             "thorough": ["--seed", "{seed}", "--runner", "st", "--cases", 4000, "--configs", 6], "timeout": 40000},
         ],
         "rule": "random scripted blocks (1-5 blocks, scripts of 0-8 calls over Again/Pending/WaitForFunc/WaitForStream"
                 "(closed?)/EOF/Err, each call optionally moving a sample through a private real stream, optional "
@@ -292,6 +317,21 @@ MANIFEST_TEXT = {
         "note": "PARTIAL for 'bounded number of waits': completion of a wait call (OS scheduling, 100 ms timeout) is assumed. "
                 "Trusted: extract.py's textual-order reading of straight-line code; strong_count semantics.",
         "technique": "Lean 4 proof over translator-generated decision programs + hook-driven race replay on real threads",
+    },
+    "C05": {
+        "text": "Lean 4 theorems in four layers: (1) per block, any chunking = one-shot function of what was consumed (C08); "
+                "(2) a `true` wait only when the peer is gone and the remainder insufficient, discarding nothing (C04, over the "
+                "generated read order); (3) mtLoop, the model of a block thread of MTGraph::run over ARBITRARY block scripts: "
+                "exits only by cancel/error/EOF/b.eof()/true wait, always terminates for finite answers, run() result "
+                "independent of add order; (4) for a DAG of deterministic history functions the quiescent state is unique and "
+                "equals the sequential reference evaluation (no hypothesis on interleaving, timeouts, stream size, add order). "
+                "Tied to the code by scripted blocks on the real MTGraph and by generated library graphs whose sinks must equal "
+                "a sequential reference execution in every configuration.",
+        "design_ref": "DESIGN.md section 2, C05",
+        "note": "PARTIAL: termination assumes OS fairness and graphs without bounded-buffer deadlock; the composition of the four "
+                "layers into one end-to-end Lean statement over a concrete concurrent semantics is argued in RR/Props/C05.lean, "
+                "not mechanised as a single theorem.",
+        "technique": "Lean 4 proofs (thread-loop model, DAG fixpoint uniqueness) + scripted-block and generated-graph correspondence",
     },
     "C06": {
         "text": "Lean 4 theorems about stRun, a line-for-line model of Graph::run over blocks that are ARBITRARY scripts "
